@@ -313,7 +313,7 @@ Definition dec_sci (m : Z) (s : N) : str :=
   [69] ++ (let ex := (L - Z.of_N s - 1)%Z in
            if (0 <=? ex)%Z then 43 :: z_to_str ex else z_to_str ex).
 Definition dec2string (plain : bool) (d : dec) : str :=
-  let '(m, s) := d in
+  let '(m, s) := dnorm d in                                   (* d.normalized() *)
   if s =? 0 then z_to_str m ++ [46; 48]                       (* "{}.0" of with_scale(0) *)
   else
     let L := N.of_nat (length (nat_str (Z.abs m))) in
